@@ -1174,6 +1174,13 @@ static Boolean IsFloatExponentSign(char const* pStart, char const* pSign) {
                                 || (*pRun == '@') || (*pRun == '%') || (*pRun == '\''));
 }
 
+/* nesting depth of EvalStrExpression(): parentheses, operands, function arguments
+   and the bodies of user-defined functions each add a level; a self-referencing
+   FUNCTION would otherwise recurse until the process stack is used up */
+
+#define EVAL_NEST_MAX 1000
+static unsigned EvalNestLevel = 0;
+
 void EvalStrExpression(tStrComp const* pExpr, TempResult* pErg) {
     Operator const* pOp;
     Operator const* FOps[OPERATOR_MAXCNT];
@@ -1195,6 +1202,11 @@ void EvalStrExpression(tStrComp const* pExpr, TempResult* pErg) {
     tSymbolFlags     PromotedFlags;
     unsigned         PromotedAddrSpaceMask;
     tSymbolSize      PromotedDataSize;
+
+    if (EvalNestLevel >= EVAL_NEST_MAX) {
+        WrError(ErrNum_StackOvfl);
+    }
+    EvalNestLevel++;
 
     for (z1 = 0; z1 < 3; z1++) {
         as_tempres_ini(&InVals[z1]);
@@ -1715,6 +1727,7 @@ void EvalStrExpression(tStrComp const* pExpr, TempResult* pErg) {
 
 func_exit:
 
+    EvalNestLevel--;
     StrCompFree(&CopyComp);
     StrCompFree(&STempComp);
 
